@@ -5,7 +5,7 @@ prop = sys.argv[1]; seed = sys.argv[2] if len(sys.argv) > 2 else "1"; total = in
 tier = sys.argv[4] if len(sys.argv) > 4 else "quick"
 W = 16; per = max(1, total // W)
 def run(i):
-    out = subprocess.run(["/verif/bin/simchk", "worker", "--property", prop, "--tier", tier, "--seed", seed, "--start", str(i), "--stride", str(W), "--count", str(per)], capture_output=True, text=True)
+    out = subprocess.run([__import__("os").environ.get("SIMCHK","/verif/bin/simchk"), "worker", "--property", prop, "--tier", tier, "--seed", seed, "--start", str(i), "--stride", str(W), "--count", str(per)], capture_output=True, text=True)
     res = []
     for l in out.stdout.splitlines():
         try: res.append(json.loads(l))
